@@ -570,6 +570,17 @@ func allTrue(n int) []bool {
 
 func itoa(i int) string { return strconv.Itoa(i) }
 
+// countSince counts the events called name logged after position mark of the trace.
+func countSince(mark int, name string) int {
+	c := 0
+	for _, e := range vnd.Trace()[mark:] {
+		if e == name {
+			c++
+		}
+	}
+	return c
+}
+
 func must(err error, what string) {
 	if err != nil {
 		vnd.Assert(false, what+" must succeed")
